@@ -166,22 +166,33 @@ Definition edns_post (req_has_opt : bool) (m : msg) : msg :=
                       (m_ar m ++ [RROpt empty_opt])
        end.
 
-(* mandatory.rs truncate, the rebuild: header copied, questions pushed, the
-   response's OPT pushed, on failure the OPT without options (version, rcode
-   and size kept, flags dropped), on failure no OPT.  The new builder has no
-   push limit; the StreamTarget shim makes a push past 65535 octets fail. *)
-Definition rebuild (m : msg) : outcome msg :=
+(* MessageBuilder::push on the rebuilt message: the StreamTarget shim fails past
+   65535 octets, the push limit (when set) fails when new_pos >= limit *)
+Definition push_fails (lim : option N) (new_len : N) : bool :=
+  (65535 <? new_len) || match lim with Some l => limit_hit l new_len | None => false end.
+
+(* the fallback OPT: no options; version, extended rcode and payload size kept,
+   the flags (DO) are not copied *)
+Definition min_opt (o : optrec) : optrec := mkOpt (o_size o) ((o_ttl o / 65536) * 65536) [].
+
+(* mandatory.rs truncate, the rebuild: header copied, questions pushed (no push
+   limit yet), then set_push_limit(max_response_size + 1) and the response's
+   OPT pushed, on failure the OPT without options, on failure no OPT. *)
+Definition rebuild (lim : option N) (m : msg) : outcome msg :=
   let base := mkMsg (m_id m) (m_b2 m) (m_b3 m) (m_qs m) [] [] [] in
   if 65535 <? mlen base then Err 2          (* TruncateError::PushFailure *)
   else match first_opt (m_ar m) with
        | None => Ok base
        | Some o =>
            let with_o o' := mkMsg (m_id m) (m_b2 m) (m_b3 m) (m_qs m) [] [] [RROpt o'] in
-           if 65535 <? mlen (with_o o) then
-             let o' := mkOpt (o_size o) ((o_ttl o / 65536) * 65536) [] in
-             if 65535 <? mlen (with_o o') then Ok base else Ok (with_o o')
+           if push_fails lim (mlen (with_o o)) then
+             if push_fails lim (mlen (with_o (min_opt o))) then Ok base
+             else Ok (with_o (min_opt o))
            else Ok (with_o o)
        end.
+
+Definition rebuild_limit (max : N) : option N :=
+  if trunc_rebuild_has_push_limit then Some (max + trunc_rebuild_limit_slack) else None.
 
 Definition over_limit (l max : N) : bool :=
   if trunc_cmp_is_gt then max <? l else max <=? l.
@@ -189,7 +200,7 @@ Definition over_limit (l max : N) : bool :=
 Definition truncate_gen (fx udp req_has_opt : bool) (hint : option N) (m : msg) : outcome msg :=
   if udp then
     if over_limit (mlen m) (trunc_max_gen fx req_has_opt hint) then
-      rebuild (mkMsg (m_id m) (set_tc (m_b2 m)) (m_b3 m) (m_qs m) (m_an m) (m_ns m) (m_ar m))
+      rebuild (rebuild_limit (trunc_max_gen fx req_has_opt hint)) (mkMsg (m_id m) (set_tc (m_b2 m)) (m_b3 m) (m_qs m) (m_an m) (m_ns m) (m_ar m))
     else Ok m
   else Ok m.
 
